@@ -328,7 +328,7 @@ impl Ldap {
             ensures
                 stream.items@.len() == 0,
 //@ insert loop-end 1
-            proof { assert(re_vec@ + stream.items@ =~= all); }
+            proof { assert(re_vec@ + stream.items@ =~= all); } //# C10.inv_entries_collected_so_far_plus_the_rest_are_all_items
 //@ insert before "let res = stream.finish().verif_await();"
         proof { assert(re_vec@ =~= all); } //# C10.search_returns_every_item_the_stream_yields_in_order
         let ghost fin = stream;
